@@ -46,7 +46,14 @@ def o_stft(spec, r, extra):
         if y[k] != y[k] or abs(y[k]) == float('inf'): return True, f"istft(stft(x)) {extra['cfg']}: sample {k} is {y[k]} (accumulated window weight {wt[k]:.3g})"
         if wt[k] > extra['wthr'] and abs(y[k] - x[k]) > 1e-9 * scale: return True, f"istft(stft(x)) {extra['cfg']}: sample {k} = {y[k]!r}, input {x[k]!r} (weight {wt[k]:.3g})"
     return False, 'round trip ok'
-ORACLES = {'inv': o_inv, 'odd': o_odd, 'stft': o_stft}
+def o_stft_default(spec, r, extra):
+    x = spec[0][1]; nx = spec[1][1]; nfft = spec[2][1]
+    if r['status'] != 'ok' or r['ret'] == H_THROW: return True, f"istft(stft(x, {nfft}), {nfft}): {r['status']} / threw"
+    y = r['outs'][-1]; n = r['ret']; scale = max(abs(v) for v in x) or 1.0
+    for k in range(1, n):
+        if y[k] != y[k] or abs(y[k] - x[k]) > 1e-9 * scale: return True, f"istft(stft(x, {nfft}), {nfft}) (default window / overlap on both sides): sample {k} = {y[k]!r}, input {x[k]!r}"
+    return False, 'round trip ok'
+ORACLES = {'inv': o_inv, 'odd': o_odd, 'stft': o_stft, 'stft_default': o_stft_default}
 
 def run_once(res, fn, spec, label, max_steps=200_000_000):
     mod, so = load(HARNESS); m = Machine(mod, max_steps=max_steps)
@@ -162,6 +169,29 @@ def job_odd(res, fn, n):
     why = f'{fn} with odd n={n}: ' + ('accepted (returned normally)' if st == 'ret' else f'undefined behaviour before the rejection: {st} {[u[1] for u in m.ub_found][:2]}')
     confirm(res, PID, HARNESS, fn, conc, 'i32', 'odd', ORACLES, f'irfft:odd:{"ret" if st == "ret" else "ub"}', why, extra={'n': n}, san=(st != 'ret'))
 
+def job_irfft_after_odd(res, n):
+    """irfft(X, n+1) (odd, rejected) and then irfft(X, n) in the same thread: the second call must still be the inverse transform"""
+    mod, so = load(HARNESS); nb = n; insyms, arr = irfft_inputs(n, nb); label = f'irfft n={n} after the rejected irfft n={n + 1}'
+    m = Machine(mod, max_steps=200_000_000); threw = False
+    try: sym_call(m, 'h_irfft', [('pf64', arr), ('i32', nb), ('i32', n + 1), ('pf64', [0.0] * (n + 1))], 'i32')
+    except Throw: threw = True
+    except UB as e: res.absorb(m); res.inc(f'{label}: UB in the rejected call'); return
+    if not threw: res.absorb(m); res.inc(f'{label}: odd length was not rejected'); return
+    m.pending = []
+    def conc(xv):
+        env = dict(zip(insyms, xv)); out = []
+        for v in arr:
+            if isF(v): out.append(env[v.args[0]] if v.op == 'sym' else -env[v.args[0].args[0]])
+            else: out.append(v)
+        return out
+    ex = {'fn': 'h_irfft_after_odd', 'n': n, 'what': 'irfft', 'nb': nb}
+    def cex(xv, why): return confirm(res, PID, HARNESS, 'h_irfft_after_odd', [('pf64', conc(xv)), ('i32', nb), ('i32', n), ('pf64', [0.0] * n)], 'i32', 'inv', ORACLES, 'irfft:after-odd', why, extra=ex, timeout=120)
+    try: r, outs, _ = sym_call(m, 'h_irfft', [('pf64', arr), ('i32', nb), ('i32', n), ('pf64', [0.0] * n)], 'i32')
+    except (Throw, UB) as e: res.absorb(m); cex([0.5 + 0.1 * i for i in range(len(insyms))], f'{label}: {type(e).__name__}'); return
+    res.absorb(m)
+    if m.taken: res.inc(f'{label}: data-dependent control flow'); return
+    check_matrix(res, m, outs[-1][:n], insyms, irfft_ref(n, insyms), Fraction(1, 2) * 64 * n * Fraction(EPS) / to_frac(mpmath.sqrt(n)), label, cex)
+
 WIN = ['hann', 'hamming', 'rect', 'cosine', 'blackman', 'kaiser']
 def job_stft(res, kind, nwin, sym, overlap, nfft, rng, method, nx):
     mod, so = load(HARNESS)
@@ -228,9 +258,13 @@ def job_stft_default(res, nfft, nx):
     # periodic hann, 50% overlap, wola: weight zero only at sample 0
     worst = max(sum(abs(rows[k].get(s, 0) - (1 if j == k else 0)) for j, s in enumerate(insyms)) for k in range(1, r))
     if ground_le(res, worst, Fraction(1, 10 ** 10), 'row'): res.ob(True, 'LRA-ground', f'default stft/istft nfft={nfft} nx={nx}: samples 1.. reproduce the input')
-    else: res.inc(f'default stft/istft nfft={nfft}: row deviation {float(worst):.3g}')
+    else:
+        k = max(range(1, r), key=lambda k_: sum(abs(rows[k_].get(s_, 0) - (1 if j == k_ else 0)) for j, s_ in enumerate(insyms)))
+        xv = [0.5 + 0.25 * math.sin(1.0 + 2.1 * i) for i in range(nx)]
+        confirm(res, PID, HARNESS, 'h_stft_rt_default', [('pf64', xv), ('i32', nx), ('i32', nfft), ('pf64', [0.0] * nx)], 'i32', 'stft_default', ORACLES, 'stft:default-overloads',
+                f'istft(stft(x, {nfft}), {nfft}) with the default window / overlap of both overloads: sample {k} is not the input sample (row deviation {float(worst):.3g})')
 
-JOBFNS = {'inv': job_inv, 'irfft': job_irfft, 'irfft_rt': job_irfft_rt, 'odd': job_odd, 'stft': job_stft, 'stft_default': job_stft_default}
+JOBFNS = {'irfft_after_odd': job_irfft_after_odd, 'inv': job_inv, 'irfft': job_irfft, 'irfft_rt': job_irfft_rt, 'odd': job_odd, 'stft': job_stft, 'stft_default': job_stft_default}
 
 def selftest(st):
     mod, so = load(HARNESS); calls = []
@@ -267,6 +301,7 @@ def main(tier, seed):
         for half in (0, 1): jobs.append((f'irfft(rfft) n={n} half={half}', 'irfft_rt', dict(n=n, half=half), 3000))
     for n in ((1, 3, 5, 7) if q else (1, 3, 5, 7, 9, 15, 21, 33)):
         jobs.append((f'irfft odd n={n}', 'odd', dict(fn='h_irfft', n=n), 600))
+        if n > 1: jobs.append((f'irfft n={n - 1} after odd', 'irfft_after_odd', dict(n=n - 1), 600))
         jobs.append((f'IfftPlanR odd n={n}', 'odd', dict(fn='h_irfftplan', n=n), 600))
     # stft grid: every overlap (filtered by the real iscola), nwin <= nfft
     grid = []
